@@ -122,6 +122,10 @@ struct EnvInner {
   handles: Vec<Option<Subscription<'static>>>,
   handle_used: Vec<bool>,
   chandles: Vec<Option<Subscription<'static>>>,
+  // hand-driven sources: every observer the source closure was ever given
+  manual: Vec<Arc<Mutex<Vec<Observer<'static, V>>>>>,
+  // Observable VALUES built once at the start of the scenario
+  defs: Vec<Observable<'static, V>>,
 }
 
 #[derive(Clone)]
@@ -167,6 +171,35 @@ fn cold(env: &Env, s: usize) -> Observable<'static, V> {
     let (ll, cur) = (r.log.len(), r.cur);
     r.probes.push((s, att, idx, alive, ll, cur));
   })
+}
+
+fn manual_slot(env: &Env, s: usize) -> Arc<Mutex<Vec<Observer<'static, V>>>> {
+  env
+    .with(|e| {
+      while e.manual.len() <= s {
+        e.manual.push(Arc::new(Mutex::new(Vec::new())));
+      }
+      e.manual[s].clone()
+    })
+    .unwrap()
+}
+
+fn manual(env: &Env, s: usize) -> Observable<'static, V> {
+  let slot = manual_slot(env, s);
+  Observable::create(move |o: Observer<'static, V>| {
+    slot.lock().unwrap().push(o);
+  })
+}
+
+fn push_manual(env: &Env, s: usize, ev: &Ev) {
+  let obs: Vec<Observer<'static, V>> = manual_slot(env, s).lock().unwrap().clone();
+  for o in obs.iter() {
+    match ev {
+      Ev::N(v) => o.next(v.clone()),
+      Ev::E(id) => o.error(mk_err(*id)),
+      Ev::C => o.complete(),
+    }
+  }
 }
 
 fn lift_list(v: Vec<V>) -> V {
@@ -216,6 +249,8 @@ fn build(env: &Env, x: &Sx) -> Observable<'static, V> {
     "result_err" => observables::from_result(Err::<V, ErrId>(ErrId(l[1].int() as u32))),
     "hot" => env.with(|e| e.subjects[l[1].int() as usize].clone()).unwrap().observable(),
     "conn" => env.with(|e| e.conns[l[1].int() as usize].clone()).unwrap().observable(),
+    "manual" => manual(env, l[1].int() as usize),
+    "ref" => env.with(|e| e.defs[l[1].int() as usize].clone()).unwrap(),
     "op" => {
       let name = l[1].atom();
       let ps = l[2].list();
@@ -427,6 +462,7 @@ enum Reaction {
   Unsub(usize),
   Emit(usize, Ev),
   Sub(usize, Sx),
+  Push(usize, Ev),
 }
 impl Reaction {
   fn from_sx(x: &Sx) -> Reaction {
@@ -436,6 +472,7 @@ impl Reaction {
       "unsub" => Reaction::Unsub(l[1].int() as usize),
       "emit" => Reaction::Emit(l[1].int() as usize, Ev::from_sx(&l[2])),
       "sub" => Reaction::Sub(l[1].int() as usize, l[2].clone()),
+      "push" => Reaction::Push(l[1].int() as usize, Ev::from_sx(&l[2])),
       _ => panic!("bad reaction {}", x.to_string()),
     }
   }
@@ -502,6 +539,7 @@ fn react(env: &Env, k: usize, i: usize, reactions: &[(usize, Reaction)]) {
         }
       }
       Reaction::Sub(k2, p) => do_sub(env, *k2, p, Vec::new()),
+      Reaction::Push(s, ev) => push_manual(env, *s, ev),
     }
   }
 }
@@ -613,6 +651,8 @@ fn run_scenario(x: &Sx) -> String {
     handles: Vec::new(),
     handle_used: Vec::new(),
     chandles: Vec::new(),
+    manual: Vec::new(),
+    defs: Vec::new(),
   });
   for c in field(fs, "conns") {
     let p = build(&env, &c.list()[1]);
@@ -623,6 +663,10 @@ fn run_scenario(x: &Sx) -> String {
       _ => panic!("bad conn"),
     };
     env.with(|e| e.conns.push(conn));
+  }
+  for d in field(fs, "defs") {
+    let p = build(&env, d);
+    env.with(|e| e.defs.push(p));
   }
   let script = field(fs, "script").to_vec();
   let env_run = env.clone();
@@ -648,6 +692,7 @@ fn run_scenario(x: &Sx) -> String {
           let s = env.with(|e| e.subjects[l[1].int() as usize].clone()).unwrap();
           s.emit(&Ev::from_sx(&l[2]));
         }
+        "push" => push_manual(&env, l[1].int() as usize, &Ev::from_sx(&l[2])),
         "connect" => {
           let k = l[1].int() as usize;
           let xh = l[2].int() as usize;
